@@ -1,1 +1,126 @@
+(* Midi.v -- saving to and loading from MIDI (scoda/midi/*.py, Sequence.sequences_save / sequences_load).
+   mido's file codec is NOT modelled: a track is a list of events (kind, channel, fields, delta time) and writing
+   then reading a file is assumed to return the same events for the kinds S-Coda writes (DESIGN section 7); the
+   correspondence check always goes through real files. *)
 From Model Require Export Store.
+
+Inductive mkind : Set := MOn | MOff | MTs | MKs | MCc | MPc | MOther.
+(* e_chan = -1 for meta messages (no channel attribute) *)
+Record mev : Set := mkev { e_kind : mkind; e_chan : Z; e_a : Z; e_b : Z; e_key : string; e_dt : Z }.
+
+(* ---------------------------------------------------------------- save: RelativeSequence.to_midi_track + MidiTrack.to_mido_track *)
+Fixpoint to_events_aux (l : list msg) (buf : Z) : list mev :=
+  match l with
+  | [] => []
+  | m :: l' =>
+      let buf := buf + m_time m in
+      match m_type m with
+      | NOTE_ON => mkev MOn 0 (m_note m) (if Z.eqb (m_vel m) NONE then 127 else m_vel m) "" buf :: to_events_aux l' 0
+      | NOTE_OFF => mkev MOff 0 (m_note m) 0 "" buf :: to_events_aux l' 0
+      | TIME_SIGNATURE => mkev MTs (-1) (m_num m) (m_den m) "" buf :: to_events_aux l' 0
+      | KEY_SIGNATURE => mkev MKs (-1) 0 0 (match m_key m with Some k => key_value k | None => "" end) buf :: to_events_aux l' 0
+      | CONTROL_CHANGE => mkev MCc 0 (m_ctrl m) (m_vel m) "" buf :: to_events_aux l' 0
+      | _ => to_events_aux l' buf
+      end
+  end.
+Definition to_events (rel : list msg) : list mev := to_events_aux rel 0.
+
+(* ---------------------------------------------------------------- load: MidiFile.convert *)
+Fixpoint find_pos (i : Z) (l : list Z) (k : nat) : option nat :=
+  match l with [] => None | x :: l' => if Z.eqb i x then Some k else find_pos i l' (S k) end.
+(* first group containing i and the first position of i in it *)
+Fixpoint locate (i : Z) (groups : list (list Z)) (g : nat) : option (nat * nat) :=
+  match groups with
+  | [] => None
+  | grp :: r => match find_pos i grp O with Some p => Some (g, p) | None => locate i r (S g) end
+  end.
+
+Inductive target : Set := TOwn | TMeta.
+
+Section Load.
+  (* rounding of the exact rational position a/b (b > 0) to a tick; instantiated with round-half-even for
+     execution, universally quantified (under |rnd a b - a/b| <= 1/2) in the theorems *)
+  Variable rnd : Z -> Z -> Z.
+  Variable tpb : Z.                (* ticks per beat of the file *)
+
+  (* the messages one track produces, in order, each with its destination *)
+  Fixpoint conv_track (evs : list mev) (cum : Z) (grouped : bool) : result (list (target * msg)) :=
+    match evs with
+    | [] => Ok []
+    | e :: evs' =>
+        let cum := cum + e_dt e in
+        let t := rnd (cum * PPQN) tpb in
+        let ch := if Z.eqb (e_chan e) (-1) then 0 else e_chan e in
+        do rest <- conv_track evs' cum grouped;
+        match e_kind e with
+        | MOn => if 0 <? e_b e
+                 then Ok (if grouped then (TOwn, mk_on ch (e_a e) (e_b e) t false) :: rest else rest)
+                 else Ok (if grouped then (TOwn, mk_off ch (e_a e) t false) :: rest else rest)
+        | MOff => Ok (if grouped then (TOwn, mk_off ch (e_a e) t false) :: rest else rest)
+        | MTs => Ok ((TMeta, mk_ts ch (e_a e) (e_b e) t false) :: rest)
+        | MKs => match dict_get String.eqb (e_key e) KeyKeyMapping with
+                 | Some k => Ok ((TMeta, mk_ks ch (Some k) t false) :: rest)
+                 | None => Err KeyErr
+                 end
+        | MCc => Ok ((TMeta, mk_cc ch (e_a e) (e_b e) t false) :: rest)
+        | MPc => Ok ((TOwn, mk_pc ch (e_a e) t false) :: rest)
+        | MOther => Ok rest
+        end
+    end.
+
+  Record cstate : Set := mkcs { cs_seqs : list (list (list msg)); cs_meta : list msg }.
+
+  Definition add_to (st : cstate) (loc : option (nat * nat)) (tm : target * msg) : cstate :=
+    match fst tm, loc with
+    | TOwn, Some (g, p) => mkcs (set_nth g (set_nth p (insort (snd tm))) (cs_seqs st)) (cs_meta st)
+    | _, _ => mkcs (cs_seqs st) (insort (snd tm) (cs_meta st))
+    end.
+
+  Definition conv_all (tracks : list (list mev)) (groups : list (list Z)) (metas : list Z) : result cstate :=
+    foldM (fun st (it : Z * list mev) =>
+             let '(i, evs) := it in
+             let loc := locate i groups O in
+             match loc, memZ i metas with
+             | None, false => Ok st
+             | _, _ => do ms <- conv_track evs 0 (match loc with Some _ => true | None => false end);
+                       Ok (fold_left (fun s tm => add_to s loc tm) ms st)
+             end)
+          (mapi (fun i t => (i, t)) tracks)
+          (mkcs (map (fun g => map (fun _ => []) g) groups) []).
+
+  (* first message with a channel among the considered tracks *)
+  Definition default_channel (tracks : list (list mev)) (groups : list (list Z)) (metas : list Z) : Z :=
+    let considered := flat_map (fun it : Z * list mev =>
+                                  match locate (fst it) groups O, memZ (fst it) metas with
+                                  | None, false => [] | _, _ => snd it end) (mapi (fun i t => (i, t)) tracks) in
+    match find (fun e => negb (Z.eqb (e_chan e) (-1))) considered with Some e => e_chan e | None => 0 end.
+
+  Definition merge_group (g : list (list msg)) : result seq :=
+    do ss <- mapM (fun a => seq_normalise (seq_of_abs a)) g;
+    match ss with
+    | [] => Err IndexErr
+    | s :: others => do '(m, _) <- seq_merge s others; Ok m
+    end.
+
+  Definition convert (tracks : list (list mev)) (groups : list (list Z)) (metas : list Z) (meta_index : Z)
+    : result (list seq) :=
+    do st <- conv_all tracks groups metas;
+    do merged <- mapM merge_group (cs_seqs st);
+    if (meta_index <? 0) || (lenZ merged <=? meta_index) then Err ValueErr else
+    match nth_error merged (Z.to_nat meta_index) with
+    | None => Err ValueErr
+    | Some mt =>
+        do '(mt1, _) <- seq_merge mt [seq_of_abs (cs_meta st)];
+        do '(mt2, a) <- get_abs mt1;
+        do mt3 <- (if existsb (fun m => is_ts m && Z.eqb (m_time m) 0) a then Ok mt2
+                   else seq_add_abs mt2 (mk_ts (default_channel tracks groups metas) 4 4 0 false));
+        Ok (set_nth (Z.to_nat meta_index) (fun _ => mt3) merged)
+    end.
+End Load.
+
+Definition convert_exec := convert round_half_even.
+
+(* sequences_save then sequences_load with default arguments (one group per track, every track a meta track) *)
+Definition save_load (rels : list (list msg)) : result (list seq) :=
+  let n := lenZ rels in
+  convert_exec PPQN (map to_events rels) (map (fun i => [i]) (rangeZ_aux (length rels) 0)) (rangeZ_aux (length rels) 0) 0.
